@@ -52,7 +52,8 @@ Definition is_tok (v : mval) : bool := match v with VLit _ => false | _ => true 
 
 (* ---- scripted user code (harness c16.go C16State) ------------------------- *)
 Inductive act :=
-| AEmit | AEmit0 | AEmit2 | AEmit2Ignore | ANoEmit | AFinish | AEmitFinish | AErr (f : C04.failure).
+| AEmit | AEmit0 | AEmit2 | AEmit2Ignore | ANoEmit | AFinish | AEmitFinish | AErr (f : C04.failure)
+| AEmitErr (f : C04.failure).   (* a successful Emit (and the late logs), THEN the error / panic *)
 Record tscript := { t_logs : list C04.logmsg; t_act : act; t_value : Z;
                     t_meta : kvlist;      (* EmitWithMetadata map *)
                     t_peek : bool;        (* the handler reads the input batch's own metadata *)
@@ -143,7 +144,8 @@ Definition turn (prod : bool) (t : tscript) (x : Z) : tres :=
   | ANoEmit => TRErr (exc c11_exc_no_data c11_err_no_data)
   | AFinish => if prod then TRFin logs [] else fin_ex
   | AEmitFinish => if prod then TRFin (logs ++ [data1] ++ late) uc else fin_ex
-  | AErr f => TRErr (exc (C04.exc_type f) (turn_exc_msg f))
+  (* the error path releases whatever the collector holds: an Emit before the failure changes nothing *)
+  | AErr f | AEmitErr f => TRErr (exc (C04.exc_type f) (turn_exc_msg f))
   end.
 
 (* FindStreamTokens: first batch whose FIRST stream-state value is non-empty *)
